@@ -30,42 +30,25 @@ Qed.
 Lemma proc_data_ready_cinv d mi mo pi po p d' : d_active d = true -> sinv d -> cinv d mi mo pi po -> UB d pi po ->
   proc_data_ready d = Ret (p, d') -> cinv d' mi mo pi po /\ UB d' pi po.
 Proof.
-  intros Act S C U. pose proof C as [Hss Hds Hne Fs Fd R B W].
+  intros Act S C U. pose proof C as [Hss Hds Sep Nw Fs Fd R B W].
   unfold proc_data_ready. rewrite Act. cbn [negb]. rewrite (side_port_of d _ Hss).
   set (q := port_of d (d_sside d)) in *.
   destruct (p_in q) as [|[r x|r] rest] eqn:Pin.
   - intro E. injection E as <- <-. split; assumption.
   - (* data-ready *)
-    set (d1 := with_port d (d_sside d) (mk_port rest (p_out q) (p_cap q))).
-    assert (Pds : port_of d1 (d_dside d) = port_of d (d_dside d)).
-    { unfold d1. rewrite port_of_with_port by assumption. destruct (d_sside d =? d_dside d) eqn:E; [lia|reflexivity]. }
-    assert (Pss : port_of d1 (d_sside d) = mk_port rest (p_out q) (p_cap q)).
-    { unfold d1. rewrite port_of_with_port by assumption. rewrite N.eqb_refl. reflexivity. }
-    assert (U1 : UB d1 pi po).
-    { apply (UB_shrink d d1 pi po pi po); [apply N.le_refl| |exact U].
-      intros s Hs. unfold d1. rewrite idlist_with_port by assumption. destruct (d_sside d =? s) eqn:E.
-      - assert (s = d_sside d) by lia. subst s. exists [r]. unfold idlist. fold q. rewrite Pin. cbn [p_out p_in map rid].
-        apply Permutation_sym. cbn [app]. apply Permutation_middle.
-      - exists []. apply Permutation_refl. }
-    destruct R as [R1 [R2 R3]].
-    assert (R' : forall pr, (forall k v, aget k pr = Some v -> aget k (d_pread d) = Some v) ->
-                 RB (mk_port rest (p_out q) (p_cap q)) (pick (d_sside d) pi po) pr (pick (d_sside d) mi mo) (d_sg d)).
-    { intros pr Hpr. split; [|split].
-      - intros id a n Hin a' Ha'. cbn [p_out] in Hin. apply (R1 id a n Hin a' (Hpr _ _ Ha')).
-      - intros id x0 Hin a Ha. cbn [p_in] in Hin. apply (R2 id x0); [rewrite Pin; right; exact Hin|apply Hpr; exact Ha].
-      - intros id a x0 Hin. cbn [p_out] in Hin. apply (R3 id a x0 Hin). }
+    destruct (cinv_popped d mi mo pi po (d_sside d) _ rest Hss Pin C U) as [C1 U1].
+    fold q in C1, U1. change (with_port d (d_sside d) (mk_port rest (p_out q) (p_cap q))) with (popped d (d_sside d) rest).
+    set (d1 := popped d (d_sside d) rest) in *.
     destruct (aget r (d_pread d)) as [a|] eqn:AG.
-    2:{ intro E. injection E as <- <-. split; [|exact U1].
-        constructor; try assumption.
-        - change (port_of d1 (d_sside d1)) with (port_of d1 (d_sside d)). rewrite Pss. apply R'. auto.
-        - change (port_of d1 (d_dside d1)) with (port_of d1 (d_dside d)). rewrite Pds. exact W. }
+    2:{ intro E. injection E as <- <-. split; assumption. }
     destruct (buf_add (d_buf d) (sub64 a (v_saddr (d_req d))) x) as [bf| |] eqn:BA; try discriminate.
     intro E. injection E as <- <-.
+    destruct C1 as [Hss1 Hds1 Sep1 Nw1 Fs1 Fd1 R1 B1 W1].
     match goal with |- cinv ?D _ _ _ _ /\ _ => set (du := D) end.
     split; [|intros s Hs; exact (U1 s Hs)].
-    constructor; [exact Hss|exact Hds|exact Hne|exact Fs|exact Fd| | |].
-    + change (port_of du (d_sside du)) with (port_of d1 (d_sside d)). rewrite Pss.
-      change (d_pread du) with (adel r (d_pread d)). apply R'.
+    constructor; [exact Hss1|exact Hds1|exact Sep1|exact Nw1|exact Fs1|exact Fd1| | |exact W1].
+    + change (port_of du (d_sside du)) with (port_of d1 (d_sside d1)). change (d_pread du) with (adel r (d_pread d)).
+      apply (RB_mono (port_of d1 (d_sside d1)) (pick (d_sside d1) pi po) _ _ (d_pread d1) _ _ _); [auto|auto| |exact R1].
       intros k v Hk. apply aget_adel_some in Hk. tauto.
     + (* the new chunk holds its granule *)
       change (d_buf du) with bf. change (d_req du) with (d_req d). change (d_sside du) with (d_sside d). change (d_sg du) with (d_sg d).
@@ -75,7 +58,7 @@ Proof.
       assert (Ha64 : a < two64) by (clear - P1 P3 rd1 rd3 ws gs; lia).
       rewrite (sub64_small a _ P1 Ha64) in *.
       intros i c Hi Hv. rewrite Bo. destruct (Bn i c Hi Hv) as [[-> ->]|Hold]; [|apply (B i c Hold Hv)].
-      cbn [ch_data]. rewrite (R2 r x ltac:(rewrite Pin; left; reflexivity) a AG). f_equal.
+      cbn [ch_data]. destruct R as [_ R2]. rewrite (R2 r x ltac:(fold q; rewrite Pin; left; reflexivity) a AG). f_equal.
       rewrite bg in *. rewrite (sub64_small _ _ P4 ltac:(clear - Ha64; lia)).
       destruct (floor_mult (d_sg d) (d_next_write d - v_daddr (d_req d)) gs) as [kb [Hkb _]]. rewrite bo, Hkb in *.
       destruct (mult_of (d_sg d) _ gs P2) as [kr Hkr]. rewrite Hkr in *.
@@ -83,25 +66,7 @@ Proof.
       assert (kb <= kr) by (apply (N.mul_le_mono_pos_r _ _ (d_sg d) gs); exact P4).
       replace (v_saddr (d_req d) + kb * d_sg d + (kr - kb) * d_sg d) with (v_saddr (d_req d) + kr * d_sg d) by (clear - H; nia).
       clear - Hkr P1. lia.
-    + change (port_of du (d_dside du)) with (port_of d1 (d_dside d)). rewrite Pds. exact W.
-  - (* orphan write-done on the source port *)
-    assert (negb (d_sside d =? d_dside d) = true) as -> by (apply negb_true_iff, N.eqb_neq; exact Hne).
-    intro E. injection E as <- <-.
-    set (d1 := with_port d (d_sside d) (mk_port rest (p_out q) (p_cap q))).
-    assert (Pds : port_of d1 (d_dside d) = port_of d (d_dside d)).
-    { unfold d1. rewrite port_of_with_port by assumption. destruct (d_sside d =? d_dside d) eqn:E; [lia|reflexivity]. }
-    assert (Pss : port_of d1 (d_sside d) = mk_port rest (p_out q) (p_cap q)).
-    { unfold d1. rewrite port_of_with_port by assumption. rewrite N.eqb_refl. reflexivity. }
-    split.
-    + destruct R as [R1 [R2 R3]]. constructor; try assumption.
-      * change (port_of d1 (d_sside d1)) with (port_of d1 (d_sside d)). rewrite Pss. split; [|split].
-        -- intros id a n Hin. cbn [p_out] in Hin. apply (R1 id a n Hin).
-        -- intros id x0 Hin. cbn [p_in] in Hin. apply (R2 id x0). rewrite Pin. right. exact Hin.
-        -- intros id a x0 Hin. cbn [p_out] in Hin. apply (R3 id a x0 Hin).
-      * change (port_of d1 (d_dside d1)) with (port_of d1 (d_dside d)). rewrite Pds. exact W.
-    + apply (UB_shrink d d1 pi po pi po); [apply N.le_refl| |exact U].
-      intros s Hs. unfold d1. rewrite idlist_with_port by assumption. destruct (d_sside d =? s) eqn:E.
-      * assert (s = d_sside d) by lia. subst s. exists [r]. unfold idlist. fold q. rewrite Pin. cbn [p_out p_in map rid].
-        apply Permutation_sym. cbn [app]. apply Permutation_middle.
-      * exists []. apply Permutation_refl.
+  - (* a write-done on the source port: an orphan unless both sides share the port *)
+    destruct (negb (d_sside d =? d_dside d)); intro E; injection E as <- <-; [|split; assumption].
+    apply (cinv_popped d mi mo pi po (d_sside d) _ rest Hss Pin C U).
 Qed.
